@@ -4,9 +4,15 @@ package c01
 import (
 	"bytes"
 	"fmt"
+	"strings"
+
+	"github.com/cossacklabs/themis/gothemis/keys"
 
 	"verifharness/internal/core"
 	env "verifharness/internal/envops"
+
+	_ "verifharness/internal/c09" // registers C09.hmac
+	_ "verifharness/internal/c15" // registers C15.create
 )
 
 func init() { core.RegisterProp("C01", run) }
@@ -26,7 +32,7 @@ func hexOf(out string) ([]byte, bool) {
 }
 
 func run(r *core.Run) {
-	r.Rule = "plaintexts of boundary and random lengths from six content classes (random, tag runs, fake headers, embedded envelopes) × both envelopes × key histories of length 1–4 × entry points (library, registry handler, column detector with/without the bare-envelope wrapper) × junk prefixes/suffixes; non-trivial = a protect call that produced an envelope; distinct by (entry point, kind, plaintext)"
+	r.Rule = "plaintexts of boundary and random lengths from six content classes (random, tag runs, fake headers, embedded envelopes) × both envelopes × key histories of length 1–4 × entry points (library, registry handler, column detector with/without the bare-envelope wrapper) × junk prefixes/suffixes; the eight AcraTranslator operations through the real TranslatorService (round trips incl. hash passed separately or concatenated, client-id / additional-context / missing-key requests); every protecting entry point × every revealing entry point on the same plaintext; non-trivial = a protect call that produced an envelope; distinct by (entry point, kind, plaintext)"
 	rd := r.Rand
 	lens := append([]int{}, env.Lens...)
 	for i := 0; i < r.N(40, 1500); i++ {
@@ -131,6 +137,8 @@ func run(r *core.Run) {
 			}
 		}
 	}
+	translatorOps(r)
+	crossEntryPoints(r)
 	// empty plaintext cannot be protected: error, never a value
 	r.Begin("empty-plaintext", true, "class:empty")
 	kv := env.NewKV(rd, 1, 1)
@@ -152,4 +160,211 @@ func deser(r *core.Run, p []byte) ([]byte, int, bool) {
 
 func containsTag(b []byte) bool {
 	return bytes.Contains(b, []byte("%%%")) || bytes.Contains(b, []byte("\"\"\"\""))
+}
+
+// worlds: a client id with a key history; the writer's store has one (possibly older) key current, the
+// reader's store the whole history
+func mkStores(r *core.Run) (w, rd *Store) {
+	g := r.Rand
+	kv := env.NewKV(g, 1+g.Intn(3), 1+g.Intn(3))
+	wkv := *kv
+	wkv.Pub = env.PubOf(kv.Privs[g.Intn(len(kv.Privs))])
+	wkv.Sym = kv.Syms[g.Intn(len(kv.Syms))]
+	id := [][]byte{[]byte("client"), []byte("c"), g.Bytes(1 + g.Intn(20)), {}}[g.Intn(4)]
+	hk := g.Bytes(32)
+	pk := env.NewKV(g, 1, 1)
+	has := g.Bool()
+	return &Store{HasCb: has, Poison: pk, ID: id, KV: &wkv, Hmac: hk}, &Store{HasCb: has, Poison: pk, ID: id, KV: kv, Hmac: hk}
+}
+
+func crossLens(r *core.Run) []int {
+	g := r.Rand
+	lens := []int{1, 18, 33, 145}
+	for i := 0; i < r.N(8, 120); i++ {
+		lens = append(lens, env.Lens[g.Intn(len(env.Lens))])
+	}
+	for i := 0; i < r.N(4, 80); i++ {
+		lens = append(lens, 1+g.Intn(600))
+	}
+	if r.Thorough() {
+		lens = append(lens, 4096, 65536)
+	}
+	return lens
+}
+
+// translatorOps: the eight AcraTranslator operations as such – round trips per Encrypt/Decrypt pair
+// (hash passed separately or concatenated), and the request checks (client id, additional context, keys).
+func translatorOps(r *core.Run) {
+	g := r.Rand
+	poisonWitness(r)
+	for _, l := range crossLens(r) {
+		m, class := env.Plain(g, l)
+		wst, rst := mkStores(r)
+		idTok := core.Hex(wst.ID)
+		for _, kind := range []string{"struct", "block"} {
+			byLen := kind == "struct" // Encrypt/Decrypt test len(clientID)==0, the other six clientID==nil
+			r.Begin(fmt.Sprintf("tr-%s-%d-%x-%s", kind, l, m[:min(8, len(m))], idTok), true, "entry:translator", "kind:"+kind, "class:"+class)
+			encOut := r.Do(fmt.Sprintf("C01.tr.%s %s %s nil %s %s", trOp(kind, "Encrypt", "EncryptSym"), wst.Tokens(), idTok, core.Hex(m), core.Hex(env.Rnd(g))))
+			if byLen && len(wst.ID) == 0 {
+				r.Check(encOut == core.Err, "tr-empty-id", "Encrypt accepted an empty client id: "+encOut)
+				r.Check(firstTwo(r.Do(fmt.Sprintf("C01.tr.Decrypt %s - nil %s", rst.Tokens(), core.Hex(m)))) == core.Err, "tr-empty-id", "Decrypt accepted an empty client id")
+			} else if p, ok := hexOf(encOut); r.Check(ok, "tr-encrypt-failed", fmt.Sprintf("translator %s failed on a non-empty plaintext", trOp(kind, "Encrypt", "EncryptSym"))) {
+				if bytes.Equal(p, m) {
+					r.Tag("protect:passthrough")
+				} else {
+					dec := r.Do(fmt.Sprintf("C01.tr.%s %s %s nil %s", trOp(kind, "Decrypt", "DecryptSym"), rst.Tokens(), idTok, core.Hex(p)))
+					r.Check(dec == "ok "+core.Hex(m)+" 0", "translator-roundtrip", fmt.Sprintf("translator %s(%s(m)) = %s, want m and no alarm (len %d, class %s)", trOp(kind, "Decrypt", "DecryptSym"), trOp(kind, "Encrypt", "EncryptSym"), short(dec), l, class))
+					// the request checks on the decrypt side, with a value that would otherwise decrypt
+					for _, bad := range [][2]string{{"nil", "nil"}, {idTok, "-"}, {idTok, core.Hex(g.Bytes(1 + g.Intn(4)))}, {core.Hex(append(append([]byte{}, wst.ID...), 'x')), "nil"}} {
+						out := r.Do(fmt.Sprintf("C01.tr.%s %s %s %s %s", trOp(kind, "Decrypt", "DecryptSym"), rst.Tokens(), bad[0], bad[1], core.Hex(p)))
+						r.Check(firstTwo(out) == core.Err, "tr-request-check", fmt.Sprintf("translator %s answered %s to client id %s / additional context %s", trOp(kind, "Decrypt", "DecryptSym"), short(out), bad[0], bad[1]))
+					}
+				}
+			}
+			// searchable pair
+			r.Begin(fmt.Sprintf("trs-%s-%d-%x-%s", kind, l, m[:min(8, len(m))], idTok), true, "entry:translator-searchable", "kind:"+kind, "class:"+class)
+			f := strings.Fields(r.Do(fmt.Sprintf("C01.tr.%s %s %s nil %s %s", trOp(kind, "EncryptSearchable", "EncryptSymSearchable"), wst.Tokens(), idTok, core.Hex(m), core.Hex(env.Rnd(g)))))
+			if r.Check(len(f) == 3 && f[0] == "ok", "tr-encrypt-failed", fmt.Sprintf("translator %s failed on a non-empty plaintext", trOp(kind, "EncryptSearchable", "EncryptSymSearchable"))) {
+				p, h := core.UnHex(f[1]), core.UnHex(f[2])
+				r.Check(len(h) == 33, "tr-hash-size", fmt.Sprintf("search hash has %d bytes", len(h)))
+				if bytes.Equal(p, m) {
+					r.Tag("protect:passthrough")
+				} else {
+					op := trOp(kind, "DecryptSearchable", "DecryptSymSearchable")
+					sep := r.Do(fmt.Sprintf("C01.tr.%s %s %s nil %s %s", op, rst.Tokens(), idTok, core.Hex(h), core.Hex(p)))
+					r.Check(sep == "ok "+core.Hex(m)+" 0", "translator-searchable-roundtrip", fmt.Sprintf("%s(data, hash) = %s, want m (len %d, class %s)", op, short(sep), l, class))
+					cat := r.Do(fmt.Sprintf("C01.tr.%s %s %s nil nil %s", op, rst.Tokens(), idTok, core.Hex(append(append([]byte{}, h...), p...))))
+					r.Check(cat == "ok "+core.Hex(m)+" 0", "translator-searchable-roundtrip", fmt.Sprintf("%s(hash++data) = %s, want m (len %d, class %s)", op, short(cat), l, class))
+					// without the hash, with an empty (non-nil) hash, without the HMAC key: never a value
+					for _, ht := range []string{"nil", "-"} {
+						out := r.Do(fmt.Sprintf("C01.tr.%s %s %s nil %s %s", op, rst.Tokens(), idTok, ht, core.Hex(p)))
+						r.Check(firstTwo(out) == core.Err, "tr-missing-hash", fmt.Sprintf("%s without a hash answered %s", op, short(out)))
+					}
+					nohk := *rst
+					nohk.Hmac = nil
+					out := r.Do(fmt.Sprintf("C01.tr.%s %s %s nil %s %s", op, nohk.Tokens(), idTok, core.Hex(h), core.Hex(p)))
+					r.Check(firstTwo(out) == core.Err, "tr-missing-hmac-key", fmt.Sprintf("%s without the HMAC key answered %s", op, short(out)))
+					for _, bad := range [][2]string{{"nil", "nil"}, {idTok, "-"}, {idTok, core.Hex(g.Bytes(1 + g.Intn(4)))}} {
+						out := r.Do(fmt.Sprintf("C01.tr.%s %s %s %s %s %s", op, rst.Tokens(), bad[0], bad[1], core.Hex(h), core.Hex(p)))
+						r.Check(firstTwo(out) == core.Err, "tr-request-check", fmt.Sprintf("%s answered %s to client id %s / additional context %s", op, short(out), bad[0], bad[1]))
+					}
+				}
+			}
+			// a poison record sent to the decrypt operations of this kind: alarm (when callbacks are configured), error
+			if g.Intn(3) == 0 {
+				pkind := []string{"struct", "block"}[g.Intn(2)]
+				if rec, ok := hexOf(r.Do(fmt.Sprintf("C15.create %s %s %d %s", pkind, rst.Poison.Tokens(), 1+g.Intn(40), core.Hex(g.Bytes(160))))); ok {
+					r.Begin(fmt.Sprintf("trpoison-%s-%s-%x", kind, pkind, rec[12:20]), true, "entry:translator-poison", "kind:"+kind)
+					wantAlarm := "err 0"
+					if rst.HasCb {
+						wantAlarm = "err 1"
+					}
+					lines := []string{
+						fmt.Sprintf("C01.tr.%s %s %s nil %s", trOp(kind, "Decrypt", "DecryptSym"), rst.Tokens(), idTok, core.Hex(rec)),
+						fmt.Sprintf("C01.tr.%s %s %s nil nil %s", trOp(kind, "DecryptSearchable", "DecryptSymSearchable"), rst.Tokens(), idTok, core.Hex(rec)),
+						fmt.Sprintf("C01.tr.%s %s %s nil - %s", trOp(kind, "DecryptSearchable", "DecryptSymSearchable"), rst.Tokens(), idTok, core.Hex(rec)),
+						fmt.Sprintf("C01.tr.%s %s %s nil %s %s", trOp(kind, "DecryptSearchable", "DecryptSymSearchable"), rst.Tokens(), idTok, core.Hex(append([]byte{127}, g.Bytes(32)...)), core.Hex(rec)),
+						fmt.Sprintf("C01.tr.%s %s %s nil %s %s", trOp(kind, "DecryptSearchable", "DecryptSymSearchable"), rst.Tokens(), idTok, core.Hex([]byte("not a hash")), core.Hex(rec)),
+					}
+					for li, line := range lines {
+						out := r.Do(line)
+						if li == 0 && byLen && len(wst.ID) == 0 { // Decrypt refuses the empty client id before anything else
+							r.Check(out == "err 0", "tr-empty-id", "Decrypt accepted an empty client id: "+short(out))
+							continue
+						}
+						r.Check(out == wantAlarm, "tr-poison", fmt.Sprintf("%s on a poison %s record answered %q, want %q", strings.Fields(line)[0], pkind, short(out), wantAlarm))
+					}
+				}
+			}
+			// request checks on the encrypt side
+			r.Begin(fmt.Sprintf("trreq-%s-%d-%x", kind, l, m[:min(8, len(m))]), true, "entry:translator-requests", "kind:"+kind)
+			for _, op := range []string{trOp(kind, "Encrypt", "EncryptSym"), trOp(kind, "EncryptSearchable", "EncryptSymSearchable")} {
+				for _, bad := range [][2]string{{"nil", "nil"}, {idTok, "-"}, {idTok, core.Hex(g.Bytes(1 + g.Intn(4)))}, {core.Hex(append(append([]byte{}, wst.ID...), 'x')), "nil"}} {
+					out := r.Do(fmt.Sprintf("C01.tr.%s %s %s %s %s %s", op, wst.Tokens(), bad[0], bad[1], core.Hex(m), core.Hex(env.Rnd(g))))
+					// a client id without keys still gets a look-alike plaintext back unchanged (pass-through needs no key)
+					passthrough := bad[1] == "nil" && bad[0] != "nil" && strings.HasPrefix(out, "ok "+core.Hex(m))
+					r.Check(out == core.Err || passthrough, "tr-request-check", fmt.Sprintf("translator %s answered %s to client id %s / additional context %s", op, short(out), bad[0], bad[1]))
+				}
+			}
+			nohk := *wst
+			nohk.Hmac = nil
+			out := r.Do(fmt.Sprintf("C01.tr.%s %s %s nil %s %s", trOp(kind, "EncryptSearchable", "EncryptSymSearchable"), nohk.Tokens(), idTok, core.Hex(m), core.Hex(env.Rnd(g))))
+			r.Check(out == core.Err, "tr-missing-hmac-key", "searchable encrypt without the HMAC key answered "+short(out))
+		}
+	}
+}
+
+// crossEntryPoints: a value produced by ANY protecting entry point is revealed to the same plaintext by
+// EVERY revealing entry point (translator decrypts of the other envelope kind: an error, never a value).
+func crossEntryPoints(r *core.Run) {
+	g := r.Rand
+	cons := consumers()
+	for _, l := range crossLens(r) {
+		m, class := env.Plain(g, l)
+		wst, rst := mkStores(r)
+		if len(wst.ID) == 0 { // Encrypt/Decrypt refuse the empty id (covered by translatorOps)
+			wst.ID, rst.ID = []byte("client"), []byte("client")
+		}
+		hash := core.UnHex(r.Impl(fmt.Sprintf("C09.hmac %s %s", core.Hex(rst.Hmac), core.Hex(m))))
+		for _, kind := range []string{"struct", "block"} {
+			for _, pr := range producers {
+				r.Begin(fmt.Sprintf("x-%s-%s-%d-%x", pr.name, kind, l, m[:min(8, len(m))]), true, "entry:cross", "producer:"+pr.name, "kind:"+kind, "class:"+class)
+				p, h, ok := pr.run(r, wst, kind, m)
+				if !r.Check(ok, "protect-failed", fmt.Sprintf("producer %s (%s) failed on a non-empty plaintext", pr.name, kind)) {
+					continue
+				}
+				if pr.searchable {
+					r.Check(bytes.Equal(h, hash), "hash-disagrees", fmt.Sprintf("producer %s returned a search hash that differs from GenerateHMAC(key, m)", pr.name))
+				}
+				if bytes.Equal(p, m) {
+					r.Tag("protect:passthrough")
+					continue
+				}
+				for _, c := range cons {
+					out := c.run(r, rst, p, hash)
+					if c.kind == "" || c.kind == kind {
+						r.Tag("consumer:" + c.name)
+						r.Check(out == "ok "+core.Hex(m), "entry-points-disagree", fmt.Sprintf("value protected by %s (%s) is revealed by %s as %s, want the plaintext (len %d, class %s)", pr.name, kind, c.name, short(out), l, class))
+					} else {
+						r.Check(out == core.Err, "kind-mismatch-revealed", fmt.Sprintf("value protected by %s (%s) answered %s at %s (handler of the other envelope kind)", pr.name, kind, short(out), c.name))
+					}
+				}
+			}
+		}
+	}
+}
+
+func short(s string) string {
+	if len(s) > 80 {
+		return s[:80] + "…"
+	}
+	return s
+}
+
+// poisonWitness: regression corpus of the repaired defect "DecryptSearchable returned its error without
+// running the poison detector when no hash could be split off" (repo-patches/51-…): fixed keys, fixed
+// random stream; run first on every run.
+func poisonWitness(r *core.Run) {
+	seed := func(b byte) []byte { return bytes.Repeat([]byte{b}, 32) }
+	pkp := keys.NewFromSeed(seed(1))
+	pk := &env.KV{Pub: pkp.Public.Value, Privs: [][]byte{pkp.Private.Value}, Sym: seed(2), Syms: [][]byte{seed(2)}}
+	ckp := keys.NewFromSeed(seed(3))
+	st := &Store{HasCb: true, Poison: pk, ID: []byte("client"), KV: &env.KV{Pub: ckp.Public.Value, Privs: [][]byte{ckp.Private.Value}, Sym: seed(4), Syms: [][]byte{seed(4)}}, Hmac: seed(5)}
+	rnd := make([]byte, 120)
+	for i := range rnd {
+		rnd[i] = byte(7*i + 1)
+	}
+	for _, pkind := range []string{"struct", "block"} {
+		rec, ok := hexOf(r.Do(fmt.Sprintf("C15.create %s %s 10 %s", pkind, pk.Tokens(), core.Hex(rnd))))
+		r.Begin("corpus-poison-searchable-"+pkind, true, "stream:corpus", "entry:translator-poison")
+		if !r.Check(ok, "corpus-broken", "cannot create the poison record of the regression witness") {
+			continue
+		}
+		for _, op := range []string{"DecryptSearchable", "DecryptSymSearchable"} {
+			for _, h := range []string{"nil", "-", core.Hex([]byte("junk"))} {
+				out := r.Do(fmt.Sprintf("C01.tr.%s %s %s nil %s %s", op, st.Tokens(), core.Hex(st.ID), h, core.Hex(rec)))
+				r.Check(out == "err 1", "tr-poison-searchable-no-hash", fmt.Sprintf("%s(poison %s record, hash %s) answered %q: the intrusion callbacks did not run exactly once with an error for the client", op, pkind, h, out))
+			}
+		}
+	}
 }
